@@ -22,8 +22,8 @@ import Optyx.Py.VecApi
 import Optyx.Py.Constraint
 import Optyx.Py.ProblemVars
 
-namespace Optyx.Drive
-open Optyx Optyx.Py.Api
+namespace Optyx.Drive.Api
+open Optyx Optyx.Drive Optyx.Py.Api
 
 /-! ### decoding -/
 
@@ -387,7 +387,7 @@ def toBoundsTable (l : List Sexp) : Option (Nat → Option (Option Rat × Option
     | _ => none
   pure fun oid => (rows.find? (·.1 == oid)).map (·.2)
 
-def handleApi (cmd : String) (args : List Sexp) : Option String :=
+def handle (cmd : String) (args : List Sexp) : Option String :=
   match cmd, args with
   | "cmp", [rel, l, r] =>
     some <| match toRel rel, toOperand l, toOperand r with
@@ -448,5 +448,12 @@ def handleApi (cmd : String) (args : List Sexp) : Option String :=
           | none => "(missing)") ++ ")"
       | _, _, _, _ => "bad-input"
   | _, _ => none
+
+end Optyx.Drive.Api
+
+namespace Optyx.Drive
+
+/-- the handler of the modelling-API unit (everything else of this file lives in `Optyx.Drive.Api`) -/
+def handleApi (cmd : String) (args : List Sexp) : Option String := Api.handle cmd args
 
 end Optyx.Drive
